@@ -20,3 +20,4 @@ PROPERTY Act_ReleaseAfterTimeout
 
 PROPERTY Act_LogGrows
 PROPERTY Act_ReleaseOnlyWhenTrulyIdle
+PROPERTY Act_TerminalIsFinal
